@@ -47,7 +47,7 @@ def resolve (store : List RedirCell) : Node → Node
     | none => .redirect p i t o oa h none
     | some id =>
       match store[id]? with
-      | some c => .redirect c.pos i t o oa c.heredoc none
+      | some c => .redirect c.pos i t o oa (c.heredoc.map fun (p, v) => Node.heredoc p v) none
       | none => .redirect p i t o oa h none
   | .unimplemented p ps => .unimplemented p (resolveL store ps)
   | n => n   -- words hold only nodes of finished nested parsers; leaves
